@@ -322,5 +322,24 @@ func (ce *closEval) call(x *ssa.Call) {
 		ce.vals[x] = vc.pureApp(fc, args).T
 		return
 	}
+	if sig, ok := c.Value.Type().Underlying().(*types.Signature); ok && key != "" && effectFree(key) && deterministicPkg(key) && sig.Results().Len() == 1 {
+		// a deterministic library function of value arguments: an uninterpreted function (same symbol as in straight-line code)
+		rs := vc.sorts.sortOf(sig.Results().At(0).Type())
+		valueOnly := rs == "Str" || rs == "Int" || rs == "Bool"
+		var as, ts []string
+		for _, a := range args {
+			s := vc.sorts.sortOf(a.Ty)
+			if s != "Str" && s != "Int" && s != "Bool" {
+				valueOnly = false
+			}
+			as = append(as, s)
+			ts = append(ts, a.T)
+		}
+		if valueOnly {
+			vc.assumed["effect-free (no contract): "+key] = true
+			ce.vals[x] = vc.detUF(key, 0, as, ts, rs)
+			return
+		}
+	}
 	unsup("closure %s: call to %s (only native string predicates, cmp.Compare and pure functions under contract are allowed)", ce.fn.Name(), fmt.Sprint(key))
 }
